@@ -129,6 +129,8 @@ class Builder:
             arr = wdt > 1 or self.r.random() < self.c["array_rate"]
             e = {"op": "create_port", "on": d, "name": self.nm("p", d), "pins": wdt, "props": self.pp(),
                  "direction": self.r.choice(["in", "out", "inout", "in", "out"])}
+            if self.c.get("undef_dir_rate") and self.r.random() < self.c["undef_dir_rate"]:
+                e["direction"] = "undef"   # a port whose direction was never given
             if arr:
                 e["is_scalar"] = False
                 if self.c["lsb"]:
